@@ -13,7 +13,13 @@ Inductive case :=
         (obs : list stepobs)         (* per delivery: isMain, isOrphan, error code, tip, tip td, served code of the delivered hash *)
         (fmain : list N)             (* hash at every height 0..tip after the run *)
         (fserved : list (N * N))     (* for every hash of T: served code after the run *)
-        (flags : bool).              (* tx index and state at the tip agree with the chain *)
+        (flags : bool)               (* tx index and state at the tip agree with the chain *)
+(** the signature stage alone: one block on the genesis block of a fresh node *)
+| CSig (bsig : bool)                 (* no block signature, or it verifies *)
+       (txs : list (N * bool))       (* (transaction, its signature verifies) *)
+       (pool : list N)               (* transactions whose hashes the receiver's mempool holds *)
+       (after : N)                   (* class of the first failing check after the signature stage, 0 = none *)
+       (ec : N) (moved : bool).      (* observed: error code, the tip is no longer the genesis block *)
 
 Definition path_of (c : N) : path :=
   match c with 0%N => PBcast | 1%N => PSync | _ => PDown end.
@@ -33,7 +39,7 @@ Fixpoint agree (verr : N -> N -> N) (fin : Z) (T : list block) (s : vstate)
       match item_of T i with
       | None => None
       | Some it =>
-          let '(s', (mm, mo, me)) := vdeliver verr fin s it in
+          let '(s', (mm, mo, me)) := vdeliver0 verr fin s it in
           if Bool.eqb mm im && Bool.eqb mo io && N.eqb (verrc_code me) ec
              && N.eqb (vtip s') tp && (vtip_td s' =? ttd)
              && N.eqb (scode (served s' (shash i))) sv
@@ -64,4 +70,13 @@ Definition check_case (c : case) : verdict :=
       | None => (m, true, 0%N)
       | Some f => (m, false, kf_code fin T V order obs fserved f)
       end
+  | CSig bsig txs pool after ec moved =>
+      let want := if sig_stage pool (mkSV bsig txs)
+                  then (if N.eqb after 0 then 0 else 10 + after)%N else 11%N in
+      let m := N.eqb ec want && Bool.eqb moved (N.eqb want 0) in
+      if sig_spec_ok bsig txs after ec moved then (m, true, 0%N)
+      else (m, false, sig_kf bsig txs pool after)
   end.
+
+Example empty_par_ids : sp_empty_par = empty_par.
+Proof. reflexivity. Qed.
